@@ -553,9 +553,12 @@ func confineRunLex(c confineCase) []Step {
 	v, err := apkfs.VerifSanitizePath(c.Base, c.P)
 	g := confineOptS("tainted", v, err)
 	steps = append(steps, Step{Line: "cf.san\t" + hx(c.Base) + "\t" + hx(c.P), Go: g, Desc: fmt.Sprintf("sanitizePath(%q, %q) = %s %q", c.Base, c.P, g[:2], v), Tags: []string{"san:" + g[:2]}})
+	// tc.*: the same call against the regenerated translation of the Go function (extract/trans.go)
+	steps = append(steps, Step{Line: "tc.san\t" + hx(c.Base) + "\t" + hx(c.P), Go: g, Desc: fmt.Sprintf("translated sanitizePath(%q, %q) = %s %q", c.Base, c.P, g[:2], v), Tags: []string{"tc.san:" + g[:2]}})
 	v, err = apk.VerifSanitizeArchivePath(c.Base, c.P)
 	g = confineOptS("tainted", v, err)
 	steps = append(steps, Step{Line: "cf.arch\t" + hx(c.Base) + "\t" + hx(c.P), Go: g, Desc: fmt.Sprintf("sanitizeArchivePath(%q, %q) = %s %q", c.Base, c.P, g[:2], v), Tags: []string{"arch:" + g[:2]}})
+	steps = append(steps, Step{Line: "tc.arch\t" + hx(c.Base) + "\t" + hx(c.P), Go: g, Desc: fmt.Sprintf("translated sanitizeArchivePath(%q, %q) = %s %q", c.Base, c.P, g[:2], v), Tags: []string{"tc.arch:" + g[:2]}})
 	return steps
 }
 
@@ -600,6 +603,7 @@ func confineRunEtag(c confineCase) []Step {
 		v, err := apk.VerifCacheFileFromEtag(c.File, et)
 		g := confineOptS("err", v, err)
 		steps = append(steps, Step{Line: "cf.etagfile\t" + hx(c.File) + "\t" + hx(et), Go: g, Desc: fmt.Sprintf("cacheFileFromEtag(%q, %q) = %s %q", c.File, et, g[:2], v), Tags: []string{"etagfile:" + g[:2]}})
+		steps = append(steps, Step{Line: "tc.etagfile\t" + hx(c.File) + "\t" + hx(et), Go: g, Desc: fmt.Sprintf("translated cacheFileFromEtag(%q, %q) = %s %q", c.File, et, g[:2], v), Tags: []string{"tc.etagfile:" + g[:2]}})
 	}
 	return steps
 }
